@@ -312,15 +312,37 @@ fn budget_opts() -> impl Strategy<Value = OptSpec> {
 }
 
 fn budget_route_case() -> impl Strategy<Value = BuilderCliCase> {
-    (twingen::spec_with(0.4), budget_opts(), budget_opts(), budget_opts(), any::<bool>()).prop_map(|(mut spec, builder, flags, env, bench_mode)| {
+    (twingen::spec_with(0.4), budget_opts(), budget_opts(), budget_opts(), any::<bool>(), 0u8..=2).prop_map(|(mut spec, builder, flags, env, bench_mode, test_args_shape)| {
         c03::keep_short(&mut spec);
-        BuilderCliCase { spec, builder, flags, env, bench_mode }
+        // A time floor only in test runs (where it is resolved and observed but
+        // never waited for): a bench run of a tree that computes elapsed time
+        // wrongly may never reach it, and the twin has no runaway guard.
+        let strip = |mut o: OptSpec| {
+            if bench_mode {
+                o.min_time_ns = None;
+            }
+            o
+        };
+        if bench_mode {
+            for item in spec.items.iter_mut() {
+                let m = match item {
+                    twin::Item::Bench(b) => &mut b.meta,
+                    twin::Item::Group(m) => m,
+                };
+                if let Some(o) = &mut m.options {
+                    o.min_time_ns = None;
+                }
+            }
+        }
+        let (builder, flags, env) = (strip(builder), strip(flags), strip(env));
+        BuilderCliCase { spec, builder, flags, env, bench_mode, test_args_shape }
     })
 }
 
 fn check_budget_route(c: &BuilderCliCase) -> Verdict {
     let runner = c03::merge(&c.flags, &c.env, &c.builder);
-    let mut args: Vec<String> = vec![if c.bench_mode { "--bench".into() } else { "--test".into() }, "--timer".into(), "tsc".into()];
+    let mut args: Vec<String> = c.mode_args();
+    args.extend(["--timer".to_string(), "tsc".to_string()]);
     args.extend(c15::cli_args(&c.flags));
     let mut env = c15::cli_env(&c.env);
     env.push(("VCHECK_TWIN_BUILDER".into(), serde_json::to_string(&c.builder).unwrap()));
@@ -349,7 +371,7 @@ fn check_budget_route(c: &BuilderCliCase) -> Verdict {
 }
 
 fn groups(g: &mut Groups) {
-    g.prop("budget_routes", 8_000, 400_000, || budget_route_case(), check_budget_route);
+    g.prop("budget_routes", 16_000, 400_000, || budget_route_case(), check_budget_route);
     g.prop("tuned", 9_000, 500_000, || super::c19::case(), check_tuned);
     g.enumerate("ties", ties, false, check_case);
     g.enumerate("one_ns_floor", floor_cases, false, check_case);
